@@ -104,8 +104,16 @@ def releaseNames : List String :=
   ["family.removePendingOutput", "guarded:family.removePendingOutput", "f.removePendingOutput", "guarded:f.removePendingOutput",
    "pendingOutputs.Delete", "guarded:pendingOutputs.Delete"]
 
+/-- `a` directly followed by `b` somewhere in the list -/
+def hasPair (a b : String) : List String → Bool
+  | x :: y :: t => (x == a && y == b) || hasPair a b (y :: t)
+  | _ => false
+
+/-- release at finish: ANY release call in finishCompactionOutputFile; release at cleanup: the loop over
+state.outputs of cleanupCompaction (`output.GetFileNumber` handed to `removePendingOutput`, inside the loop body). -/
 def cfgOfSteps (finishSteps cleanupSteps : List String) : Cfg :=
-  ⟨finishSteps.any releaseNames.contains, cleanupSteps.any releaseNames.contains⟩
+  ⟨finishSteps.any releaseNames.contains,
+   hasPair "guarded:output.GetFileNumber" "guarded:family.removePendingOutput" cleanupSteps⟩
 
 /-- the configuration the SOURCE has (re-read on every run) -/
 def codeCfg : Cfg :=
